@@ -201,6 +201,11 @@ class Report:
             assumed.append('%s.%s: %s' % (short, q, c.assumed))
       if assumed:
         cov['assumed_contracts'] = assumed
+      # every library-ledger statement loaded for this run (mechanical list:
+      # the notes the ledger entries register, whether or not a path used
+      # them)
+      from mmverif.engine import lib as _lib
+      cov['library_ledger'] = sorted(set(_lib.ASSUMPTIONS))
     # ---------------- bounded part
     if self.mon is not None:
       m = self.mon
